@@ -262,7 +262,8 @@ def searched_position_minus_one(fn):
       continue
     k = st.targets[0].id
     xs, v = norm_text(st.value.left.args[0]), norm_text(st.value.left.args[1])
-    uses = [n for n in ast.walk(fn) if isinstance(n, ast.Subscript) and isinstance(n.slice, ast.Name) and n.slice.id == k and getattr(n, 'lineno', 0) >= st.lineno]
+    uses = [n for n in ast.walk(fn) if isinstance(n, ast.Subscript) and isinstance(n.slice, ast.Name) and n.slice.id == k and getattr(n, 'lineno', 0) >= st.lineno and
+            U.reaching_def(fn, k, n) is st.value]
     for n in uses:
       gs = guards_at(fn, n)
       lower = [t for t, _p in gs if (any(isinstance(x, ast.Name) and x.id == k for x in ast.walk(t)) and any(U.const_value(c) in (0, -1) for c in ast.walk(t) if isinstance(c, (ast.Constant, ast.UnaryOp)))) or
@@ -1104,6 +1105,10 @@ def unzip_of_empty(fn):
       continue
     src = v.args[0].value
     stext = norm_text(src)
+    d0 = U.reaching_def(fn, src.id, st) if isinstance(src, ast.Name) else src
+    if isinstance(d0, (ast.List, ast.Tuple)) and d0.elts:
+      out.append(Site('unzip-empty', st, OK, '%s starts as a display with %d element(s): it is never empty' % (stext, len(d0.elts))))
+      continue
     guarded = [t for t, p in guards_at(fn, st.value) if _mentions(t, stext) or any(isinstance(c, ast.Call) and dotted(c.func) == 'len' for c in ast.walk(t))]
     if guarded:
       out.append(Site('unzip-empty', st, OK, 'the transposition is guarded by %s' % norm_text(guarded[0])))
@@ -1114,14 +1119,25 @@ def unzip_of_empty(fn):
 
 
 def one_sided_wraps(node, modulus=12, names=('NOTES_PER_OCTAVE',)):
-  """`E + N if E < 0 else E` where E is a sum: wrapped below 0 only; a value of N or more is left as it is."""
+  """`E + N if E < 0 else E` where E is a sum: wrapped below 0 only; a value of N or more is left as it is.  Not a site when E
+  (read through the locals of the function it stands in) already contains a reduction `% N`: one side is then excluded by
+  construction (`natural + alter % 12` is never negative)."""
   out = []
+  funcs = [f for f in ast.walk(node) if isinstance(f, (ast.FunctionDef, ast.AsyncFunctionDef))]
+  owner = {}
+  for f in funcs:
+    for x in ast.walk(f):
+      owner.setdefault(id(x), f)
   for v in ast.walk(node):
     if not isinstance(v, ast.IfExp):
       continue
     for shifted, plain in ((v.body, v.orelse), (v.orelse, v.body)):
       if isinstance(shifted, ast.BinOp) and isinstance(shifted.op, (ast.Add, ast.Sub)) and (U.const_value(shifted.right) == modulus or (dotted(shifted.right) or '').split('.')[-1] in names) and \
           norm_text(shifted.left) == norm_text(plain):
+        f = owner.get(id(v))
+        px = U.expand_locals(f, plain, at=v) if f is not None else plain
+        if any(isinstance(m, ast.BinOp) and isinstance(m.op, ast.Mod) for m in ast.walk(px)) or any(isinstance(c, ast.Call) and dotted(c.func) == 'divmod' for c in ast.walk(px)):
+          continue
         out.append((v, 'below 0' if isinstance(shifted.op, ast.Add) else 'at or above %d' % modulus))
   return out
 
